@@ -139,7 +139,21 @@ impl Check for C06 {
             high_origin: rng.chance(1, 8),
             tail_beyond_user: false,
         };
-        let program = gen::generate(&mut rng, &opts);
+        let mut program = gen::generate(&mut rng, &opts);
+        if rng.chance(1, 10) && (0x3000..=0x7F00).contains(&(program.origin() as usize)) && program.n_words() < 2000 {
+            // The image (with its implicit HALT) ends exactly at the top of memory, or one word
+            // below: whatever runs a source and whatever loads an object file must agree there
+            let origin = program.origin() as usize;
+            let have = program.n_words();
+            let pad = 0x10000 - origin - have - 1 - rng.usize_below(2);
+            program.stmts.push(crate::gen::Stmt {
+                labels: vec!["Top_pad_1".to_string()],
+                text: format!(".blkw x{:X}", pad),
+                words: pad,
+                breaks: 0,
+            });
+            program.features.push("image_ends_at_top_of_memory");
+        }
         // Storage faults: which re-headed images to try (origin word, number of HALT words)
         let mut reheads: Vec<J> = Vec::new();
         for _ in 0..6 {
@@ -211,7 +225,14 @@ impl Check for C06 {
         let dest_pre = scenario.get_str("dest_pre").unwrap_or("absent");
         match dest_pre {
             "longer_file" => std::fs::write(&obj, &junk).expect("old object"),
-            "stale_tmp" => std::fs::write(scratch.path("p.lc3.tmp"), &junk).expect("stale tmp"),
+            "stale_tmp" => {
+                // Under the plain name and under the name private to the compiling process's id
+                std::fs::write(scratch.path("p.lc3.tmp"), &junk).expect("stale tmp");
+                if junk.len() < 50_000 {
+                    // (handed to a shell through the environment)
+                    crate::world_b::STALE_FOR_PID.with(|s| *s.borrow_mut() = Some((scratch.path("p.lc3"), junk.clone())));
+                }
+            }
             "symlink" => {
                 let target = scratch.path("real-object.bin");
                 std::fs::write(&target, &junk).expect("symlink target");
@@ -220,6 +241,9 @@ impl Check for C06 {
             _ => {}
         }
         report.hit(&format!("fault:destination_{}", dest_pre));
+        if source.contains("Top_pad_1") {
+            report.hit("probe:image_ends_at_top_of_memory");
+        }
         let mut v: Vec<Violation> = Vec::new();
         let mut hash: Vec<u8> = Vec::new();
         let mut procs = 0u64;
